@@ -309,6 +309,25 @@ def gen_handshake(tree):
     thread_loop_guarded = calls_only_under(job_call, "handleRequest", guard_by_call("handleConnection"), "ClientConnectionJob.__call__")
     hc = find_func(thr, "handleConnection", "ClientConnectionJob")
     thread_hc_guarded = truthy_return_only_under(hc, "_handshake", lambda v: isinstance(v, ast.Constant) and v.value is True)
+    # the refusal of a connection when the pool is exhausted: events() -> job.denyConnection(<literal reason>), and
+    # denyConnection hands the reason to _handshake(..., denied_reason=reason) and never reaches handleRequest
+    tev = find_func(thr, "events", "SocketServer_Threadpool")
+    dcalls = calls_in(tev, "denyConnection")
+    need(len(dcalls) == 1 and len(dcalls[0].args) == 1 and isinstance(dcalls[0].args[0], ast.Constant)
+         and isinstance(dcalls[0].args[0].value, str) and dcalls[0].args[0].value.strip(),
+         "SocketServer_Threadpool.events: denyConnection(<string literal>) not found exactly once")
+    deny_reason = dcalls[0].args[0].value
+    deny = find_func(thr, "denyConnection", "ClientConnectionJob")
+    need(not calls_in(deny, "handleRequest") and not calls_in(deny, "handleConnection"),
+         "denyConnection reaches the request loop")
+    dh = calls_in(deny, "_handshake")
+    need(len(dh) == 1 and any(k.arg == "denied_reason" for k in dh[0].keywords),
+         "denyConnection does not call _handshake(..., denied_reason=...) exactly once")
+    need(len(calls_in(deny, "close")) >= 1, "denyConnection does not close the socket")
+    # in _handshake the refusal is raised (inside the try statement whose handler answers CONNECTFAIL)
+    dr = [n for n in ast.walk(hs) if isinstance(n, ast.If) and isinstance(n.test, ast.Name) and n.test.id == "denied_reason"]
+    need(len(dr) == 1 and len(dr[0].body) == 1 and isinstance(dr[0].body[0], ast.Raise) and not dr[0].orelse,
+         "_handshake: `if denied_reason: raise ...` not found exactly once")
     # multiplex server
     ev = find_func(mux, "events", "SocketServer_Multiplex")
     assigns = [n for n in ast.walk(ev) if isinstance(n, ast.Assign) and is_call_to(n.value, "_handleConnection")]
@@ -342,10 +361,12 @@ def gen_handshake(tree):
     out += "   _handleConnection returns conn only under `if self.daemon._handshake(conn)`: %s *)\n" % mux_hc_guarded
     out += "Definition mux_gate : bool := %s.\n" % cbool(mux_reg_guarded and mux_hc_guarded)
     out += "Definition marshal_id : N := %s.\n" % cN(marshal_id)
+    out += "(* pool exhausted: events() -> denyConnection(%r) -> _handshake(denied_reason=...) raised before the validator; socket closed; no request loop *)\n" % deny_reason.replace("*)", "* )")
+    out += "Definition deny_checked : bool := true.\n"
     info = {"first_types": [vals[n] for n in first_names], "later_types": [vals[n] for n in later_names],
             "first_names": first_names, "later_names": later_names, "ok_only": ok_only,
             "thread_gate": thread_loop_guarded and thread_hc_guarded, "mux_gate": mux_reg_guarded and mux_hc_guarded,
-            "marshal_id": marshal_id, "t_connect": vals["MSG_CONNECT"], "t_invoke": vals["MSG_INVOKE"], "t_ping": vals["MSG_PING"],
+            "marshal_id": marshal_id, "deny_reason": deny_reason, "t_connect": vals["MSG_CONNECT"], "t_invoke": vals["MSG_INVOKE"], "t_ping": vals["MSG_PING"],
             "ast_sha": {"_handshake": ast_sha(hs), "handleConnection": ast_sha(hc), "__call__": ast_sha(job_call),
                         "events": ast_sha(ev), "_handleConnection": ast_sha(mhc)}}
     return out, info
